@@ -2,7 +2,7 @@
 # usage: tools/reseed.sh <seed-id> [check-id] -- try a seeded change against a check WITHOUT touching /repo:
 # a scratch worktree of /repo's HEAD gets the patch, the check runs with PYTHONPATH/PBMON_REPO pointing at it and
 # PBMON_OUT redirecting evidence/replays to the scratch directory; both are removed afterwards.
-SEED=$1; CHECK=${2:-$1}
+SEED=$1; CHECK=${2:-${1%b}}
 WT=$(mktemp -d /tmp/reseed.$SEED.XXXX)
 git -C /repo worktree add -q --detach $WT/wt HEAD || exit 2
 if ! git -C $WT/wt apply /verif/seeded/$SEED/patch.diff; then echo "seed=$SEED check=$CHECK PATCH-DOES-NOT-APPLY"; git -C /repo worktree remove --force $WT/wt; rm -rf $WT; exit 2; fi
